@@ -334,6 +334,9 @@ class Contracts(object):
                                    else 'not_reached'))
         mn = float(np.min(m))
         res.stat('obs_min_flow_over_mean', mn / float(np.mean(m)))
+        # observation only (the property does not state it): are all
+        # distributed flows > 0 ?
+        res.tag('obs_flows_all_positive:%s' % (mn > 0.0))
         if mn <= 0.0:
             res.tag('obs_nonpositive_flow')
         self.min_flow = mn
